@@ -253,3 +253,138 @@ theorem anyE_ok (p : PyVal → Bool) (xs : List PyVal) :
 theorem containsE_list (xs : List PyVal) : (fun x => containsE (.list xs) x) = fun x => .ok (.bool (pyIn x xs)) := rfl
 
 end Rbacx.PyE
+
+namespace Rbacx.PyE
+open PyVal
+
+/-! ### stage 3: recursion over the document (`and` / `or` / `not`), budget = size -/
+
+theorem size_lookup (k : String) (kvs : List (String × PyVal)) (v : PyVal) (h : lookup k kvs = some v) : v.size ≤ sizeD kvs := by
+  induction kvs with
+  | nil => simp [lookup] at h
+  | cons kv kvs ih =>
+    obtain ⟨k', w⟩ := kv
+    simp only [lookup] at h
+    simp only [sizeD]
+    split at h
+    · cases h; omega
+    · have := ih h; omega
+
+theorem size_get_lt (k : String) (kvs : List (String × PyVal)) (h : PyVal.hasKey (.dict kvs) k = true) :
+    ((PyVal.dict kvs).get k).size < (PyVal.dict kvs).size := by
+  simp only [PyVal.hasKey] at h
+  obtain ⟨v, hv⟩ := Option.isSome_iff_exists.mp h
+  have := size_lookup k kvs v hv
+  simp only [PyVal.get, hv, Option.getD_some, PyVal.size]
+  omega
+
+theorem size_mem (x : PyVal) (xs : List PyVal) (h : x ∈ xs) : x.size ≤ sizeL xs := by
+  induction xs with
+  | nil => cases h
+  | cons y ys ih =>
+    simp only [sizeL]
+    cases h with
+    | head => omega
+    | tail _ h' => have := ih h'; omega
+
+theorem size_pos (v : PyVal) : 0 < v.size := by
+  cases v <;> simp only [PyVal.size] <;> omega
+
+/-- any budget above the size of the document parses it the same way -/
+theorem parseCond_stable : ∀ (n m : Nat) (c : PyVal), c.size < n → c.size < m → parseCond n c = parseCond m c := by
+  intro n
+  induction n with
+  | zero => intro m c h; omega
+  | succ n ih =>
+    intro m c hn hm
+    cases m with
+    | zero => omega
+    | succ m =>
+      cases c with
+      | dict kvs =>
+        simp only [parseCond]
+        have hsub : ∀ k, PyVal.hasKey (.dict kvs) k = true → ((PyVal.dict kvs).get k).size < n ∧ ((PyVal.dict kvs).get k).size < m := by
+          intro k hk
+          have := size_get_lt k kvs hk
+          omega
+        have hsubs : ∀ k, PyVal.hasKey (.dict kvs) k = true →
+            parseSubsWith (parseCond n) ((PyVal.dict kvs).get k) = parseSubsWith (parseCond m) ((PyVal.dict kvs).get k) := by
+          intro k hk
+          obtain ⟨h1, h2⟩ := hsub k hk
+          generalize (PyVal.dict kvs).get k = v at h1 h2
+          cases v with
+          | list xs =>
+            simp only [parseSubsWith, PyVal.size] at *
+            congr 1
+            apply List.map_congr_left
+            intro x hx
+            have := size_mem x xs hx
+            exact ih m x (by omega) (by omega)
+          | _ => rfl
+        split
+        · rfl
+        · split
+          · rfl
+          · split
+            · next h => rw [hsubs "and" h]
+            · split
+              · next h => rw [hsubs "or" h]
+              · split
+                · next h => rw [ih m _ (hsub "not" h).1 (hsub "not" h).2]
+                · rfl
+      | _ => rfl
+
+theorem parseCond_condOf (n : Nat) (c : PyVal) (h : c.size < n) : parseCond n c = condOf c :=
+  parseCond_stable n (c.size + 1) c h (Nat.lt_succ_self _)
+
+/-- `all(f(c) for c in xs)` where every `f(c)` is the model's evaluation of `g c`: the model's `evalAll` -/
+theorem allE_evalAll (cx : CondCtx) (f : PyVal → Res) (g : PyVal → Cond) (xs : List PyVal)
+    (h : ∀ x ∈ xs, f x = (evalCond cx (g x)).map PyVal.bool) : allE xs f = (evalAll cx (xs.map g)).map PyVal.bool := by
+  induction xs with
+  | nil => rfl
+  | cons x xs ih =>
+    have hx := h x (List.mem_cons_self ..)
+    have ih' := ih fun y hy => h y (List.mem_cons_of_mem _ hy)
+    simp only [allE, List.map_cons, evalAll, hx]
+    cases hr : evalCond cx (g x) with
+    | error e => rfl
+    | ok b => cases b <;> simp [Except.map, truthy, ih']
+
+theorem anyE_evalAny (cx : CondCtx) (f : PyVal → Res) (g : PyVal → Cond) (xs : List PyVal)
+    (h : ∀ x ∈ xs, f x = (evalCond cx (g x)).map PyVal.bool) : anyE xs f = (evalAny cx (xs.map g)).map PyVal.bool := by
+  induction xs with
+  | nil => rfl
+  | cons x xs ih =>
+    have hx := h x (List.mem_cons_self ..)
+    have ih' := ih fun y hy => h y (List.mem_cons_of_mem _ hy)
+    simp only [anyE, List.map_cons, evalAny, hx]
+    cases hr : evalCond cx (g x) with
+    | error e => rfl
+    | ok b => cases b <;> simp [Except.map, truthy, ih']
+
+/-- the external `rel_branch` (the statements `if 'rel' in cond: …`) as the model has it: `evalRel` on `cond["rel"]` -/
+def relExt (cx : CondCtx) : PyVal → PyVal → Except CondErr PyVal :=
+  fun cond _ => (evalRel cx (cond.get "rel")).map PyVal.bool
+
+/-- the operand of `and` / `or` as the translated source iterates it, against the model's `parseSubsWith` -/
+theorem subs_cases (f : PyVal → Cond) (v : PyVal) :
+    (isIterable v = false ∧ parseSubsWith f v = Option.none) ∨
+    (∃ xs, v = .list xs ∧ parseSubsWith f v = some (xs.map f)) ∨
+    (isIterable v = true ∧ (∀ x ∈ Rbacx.Py.iter v, x.isDict = false) ∧ parseSubsWith f v = some ((Rbacx.Py.iter v).map Cond.lit)) := by
+  cases v with
+  | list xs => exact Or.inr (Or.inl ⟨xs, rfl, rfl⟩)
+  | str s =>
+    refine Or.inr (Or.inr ⟨rfl, ?_, ?_⟩)
+    · intro x hx
+      simp only [Rbacx.Py.iter, List.mem_map] at hx
+      obtain ⟨_, _, rfl⟩ := hx; rfl
+    · simp only [parseSubsWith, Rbacx.Py.iter, List.map_map]; rfl
+  | dict kvs =>
+    refine Or.inr (Or.inr ⟨rfl, ?_, ?_⟩)
+    · intro x hx
+      simp only [Rbacx.Py.iter, List.mem_map] at hx
+      obtain ⟨_, _, rfl⟩ := hx; rfl
+    · simp only [parseSubsWith, Rbacx.Py.iter, List.map_map]; rfl
+  | _ => exact Or.inl ⟨rfl, rfl⟩
+
+end Rbacx.PyE
